@@ -147,18 +147,31 @@ def ref_eval(dump, assignment):
     gates = {k: (t, ops) for k, t, ops in dump['gates']}
     memo = {}
 
-    def val(l, depth=0):
-        if l in memo:
-            return memo[l]
-        t, ops = gates[l]
-        if t == 'INPUT':
-            r = assignment[l]
-        else:
-            r = ref_bool(t, [val(o) for o in ops])
+    def val(root):
+        # explicit stack: the depth of a circuit is not bounded by Python's recursion limit
+        stack = [root]
+        while stack:
+            l = stack[-1]
+            if l in memo:
+                stack.pop()
+                continue
+            t, ops = gates[l]
+            if t == 'INPUT':
+                memo[l] = assignment[l]
+                stack.pop()
+                continue
+            todo = [o for o in ops if o not in memo]
+            if todo:
+                if len(stack) > len(gates) + 1:
+                    raise RecursionError('cyclic netlist handed to the reference evaluator')
+                stack.extend(todo)
+                continue
+            r = ref_bool(t, [memo[o] for o in ops])
             if r is None:
                 raise ArityError(l)
-        memo[l] = r
-        return r
+            memo[l] = r
+            stack.pop()
+        return memo[root]
     return {l: val(l) for l in gates}
 
 
